@@ -35,7 +35,7 @@ class Clause:
         return f"{prop}/{self.fn}/{self.clause}"
 
 
-BENIGN_FIELDS = {"_checkedForCrossReferences", "fcn", "fill", "plot"}
+BENIGN_FIELDS = {"_checkedForCrossReferences", "fcn", "fill", "plot", "%ialias"}
 
 
 class Ctx:
@@ -321,6 +321,24 @@ def template_goal(st, K, resv):
     return z3.And(gs) if gs else z3.BoolVal(True)
 
 
+def alias_goal(st, resv):
+    """Branch: the accessors i0..i9 were bound by the constructor to the elements of the tuple that is still the
+    node's `values` (a result whose values were replaced afterwards answers .iN with stale aggregators)"""
+    if not isinstance(resv, VObj) or not isinstance(st.obj(resv), Inst):
+        return z3.BoolVal(False)
+    o = st.obj(resv)
+    a, v = o.fields.get("%ialias"), o.fields.get("values")
+    same = a is v or (isinstance(a, VObj) and isinstance(v, VObj) and a.oid == v.oid)
+    return z3.BoolVal(bool(same))
+
+
+def bound_goal(st, pre, selfv):
+    """an in-place operation keeps the receiver's own `fill` / `plot` method objects (they are bound to the
+    receiver: installing another aggregator's makes later fills go to that other object)"""
+    o0, o1 = pre.obj(selfv), st.obj(selfv)
+    return z3.BoolVal(all(o1.fields.get(k) is o0.fields.get(k) for k in ("fill", "plot")))
+
+
 def quantity_same(st, pre, a_v, b_v):
     """the two instances carry the same quantity object content"""
     oa, ob = pre.obj(a_v), st.obj(b_v)
@@ -383,6 +401,8 @@ def ob_zero(P, K, hooks=None, mode="live"):
         cx.emit(["C06"], "ensures:fresh", p, s, lambda s2: fresh_goal(s2, K, r.v))
         cx.emit(["C06"], "ensures:frame", p, s, lambda s2: frame_goal(s2, pre))
         cx.emit(["C01", "C08", "C04"], "ensures:wf", p, s, lambda s2: wf_goal(s2, K, r.v))
+        if K == "Branch":
+            cx.emit(["C01", "C08", "C04"], "ensures:iN-accessors-alias-values", p, s, lambda s2: alias_goal(s2, r.v))
         if K in TEMPLATE_CLASSES:
             cx.emit(["C16"], "ensures:template-not-a-fill-slot", p, s, lambda s2: template_goal(s2, K, r.v))
         if isinstance(r.v, VObj):
@@ -420,6 +440,8 @@ def ob_add(P, K, hooks=None, mode="live"):
             cx.emit(["C06"], "ensures:fresh", p, s, lambda s2: fresh_goal(s2, K, r.v))
             cx.emit(["C06"], "ensures:frame", p, s, lambda s2: frame_goal(s2, pre))
             cx.emit(["C01", "C08", "C04"], "ensures:wf", p, s, lambda s2: wf_goal(s2, K, r.v))
+            if K == "Branch":
+                cx.emit(["C01", "C08", "C04"], "ensures:iN-accessors-alias-values", p, s, lambda s2: alias_goal(s2, r.v))
             if K in TEMPLATE_CLASSES:
                 cx.emit(["C16"], "ensures:template-not-a-fill-slot", p, s, lambda s2: template_goal(s2, K, r.v))
             if isinstance(r.v, VObj):
@@ -502,6 +524,9 @@ def ob_iadd(P, K, hooks=None, mode="live"):
             cx.emit(["C07"], "ensures:same-object", p, s, z3.BoolVal(isinstance(r.v, VObj) and r.v.oid == selfv.oid))
             cx.emit(["C07"], "ensures:view", p, s, lambda s2: plus_goal(s2, K, a, b, view_of(s2, selfv, K)))
             cx.emit(["C07"], "ensures:wf", p, s, lambda s2: wf_goal(s2, K, selfv))
+            if K == "Branch":
+                cx.emit(["C07"], "ensures:iN-accessors-alias-values", p, s, lambda s2: alias_goal(s2, selfv))
+            cx.emit(["C07"], "ensures:fill-and-plot-still-bound-to-self", p, s, lambda s2: bound_goal(s2, pre, selfv))
             if K in TEMPLATE_CLASSES:
                 cx.emit(["C16"], "ensures:template-not-a-fill-slot", p, s, lambda s2: template_goal(s2, K, selfv))
             if variant != "alias":
@@ -591,6 +616,8 @@ def ob_mul(P, K, method="__mul__", hooks=None, mode="live"):
         cx.emit(["C06"], "ensures:fresh", p, s, lambda s2: fresh_goal(s2, K, r.v))
         cx.emit(["C06"], "ensures:frame", p, s, lambda s2: frame_goal(s2, pre))
         cx.emit(["C08"], "ensures:wf", p, s, lambda s2: wf_goal(s2, K, r.v))
+        if K == "Branch":
+            cx.emit(["C08"], "ensures:iN-accessors-alias-values", p, s, lambda s2: alias_goal(s2, r.v))
         if K in TEMPLATE_CLASSES:
             cx.emit(["C16"], "ensures:template-not-a-fill-slot", p, s, lambda s2: template_goal(s2, K, r.v))
         if isinstance(r.v, VObj):
@@ -643,6 +670,9 @@ def ob_fill(P, K, hooks=None, mode="live", rollback=False):
             continue
         cx.emit(["C02", "C01"], "ensures:view", p, s, lambda s2: z3.Implies(w.ispos(), fillspec.fill_post(s2, K, pre, selfv, a, view_of(s2, selfv, K), d, w)))
         cx.emit(["C02"], "ensures:wf", p, s, lambda s2: wf_goal(s2, K, selfv))
+        if K == "Branch":
+            cx.emit(["C02"], "ensures:iN-accessors-alias-values", p, s, lambda s2: alias_goal(s2, selfv))
+        cx.emit(["C02"], "ensures:fill-and-plot-still-bound-to-self", p, s, lambda s2: bound_goal(s2, pre, selfv))
         if K in TEMPLATE_CLASSES:
             cx.emit(["C16"], "ensures:template-not-a-fill-slot", p, s, lambda s2: template_goal(s2, K, selfv))
         cx.emit(
